@@ -1,6 +1,9 @@
 import TpmProofs.DecodeOk
 import TpmProofs.Props.C16
-import TpmProofs.Valid
+import TpmProofs.ShapeMsg
+import TpmModel.Generated.Prims
+import TpmModel.Generated.Types
+import TpmModel.Generated.Cmd
 import TpmProofs.Props.C07
 /-!
 # C04 — strict mode rejects exactly the inputs containing an out-of-range value
@@ -33,13 +36,48 @@ theorem c04_prim_accept (p : Prim) (path : Path) (bs rest : List Byte) (pos : Na
   rw [hlen] at this
   simp [this, hok, emitM, emit]
 
-/-- **first offender** (every layout, every top, EVERY input): every field a strict decode shows carries a value valid for its
-declared type — the walker validates before it emits and stops at the first failure.  So when strict decoding raises
-`ValueConstraintViolatedError`, no field shown before it is an offender (and by C02 the fields shown tile the input up to
-the offending one): the error is about the first out-of-range field in wire order, and no event is emitted for it
-(`c04_prim_reject`). -/
-theorem c04_shown_fields_valid (tb : MsgTables) (top : Top) (x : List Byte) :
-    ∀ ke ∈ (stOf (runWalker true tb top x)).out, ValidEv ke.2 := runWalker_ve tb top x
+/-! ### first offender: every field a strict decode shows is valid for its declared type -/
+
+/-- the primitive type of that class name in the regenerated table -/
+def tablePrim (n : String) : Option Prim := Generated.allPrims.find? (·.name == n)
+
+/-- what a shown field event says: its class is a primitive type of the table, the event's declared type and width are that
+type's, and the value is in that type's declared set -/
+def FieldOk (m : MEvent) : Prop :=
+  ∃ p, tablePrim m.vclass = some p ∧ m.ty = .named p.name false ∧ m.width = p.size ∧ ∀ y, m.val = some y → p.isValid y = true
+
+/-- (decidable side condition) the table's entry for this primitive's name is this primitive -/
+def knownPrim (p : Prim) : Bool := decide (tablePrim p.name = some p)
+
+theorem strict_link : PrimLink true knownPrim FieldOk := fun p hp σ x hv =>
+  ⟨p, by simpa [knownPrim] using hp, rfl, rfl, fun y hy => by
+    simp only [Option.some.injEq] at hy
+    subst hy
+    exact hv rfl⟩
+
+/-- (tables) every primitive type used by any layout of `/repo` or by the message framing is the table's entry for its name
+(and the structural side conditions of the path discipline hold) -/
+theorem c04_tables :
+    Generated.msgTables.shapeOk knownPrim = true ∧ Generated.allTypes.all (Ty.shapeOk knownPrim) = true := by
+  constructor <;> decide +kernel
+
+/-- **first offender** (every layout of /repo, commands, responses, streams, EVERY input): every field event a strict decode
+emits with a value carries a value that is valid for the primitive type the tables declare under the event's class name — the
+walker validates before it emits and stops at the first failure.  So when strict decoding raises
+`ValueConstraintViolatedError`, no field shown before it is an offender (and by C02 the fields shown tile the input up to the
+offending one): the error is about the first out-of-range field in wire order, and no event is emitted for it
+(`c04_prim_reject`, `c04_prim_error_is_invalid`). -/
+theorem c04_shown_fields_valid (top : Top) (htop : ∀ t, top = .ty t → t ∈ Generated.allTypes) (x : List Byte) :
+    ∀ ke ∈ (stOf (runWalker true Generated.msgTables top x)).out, ∀ m, ke.2 = .marshal m → m.val.isSome = true → FieldOk m := by
+  obtain ⟨new, ho, hgd⟩ := runWalker_gd true strict_link Generated.msgTables c04_tables.1 top
+    (fun t ht => List.all_eq_true.mp c04_tables.2 t (htop t ht)) x
+  simp only [initSt, List.nil_append] at ho
+  intro ke hke m hm hv
+  rw [ho] at hke
+  have : Event.marshal m ∈ new.map (·.2) := by
+    rw [← hm]; exact List.mem_map_of_mem hke
+  exact (hgd.1 m this).2 hv
+
 
 /-- the value error raised for a primitive field names that field's path, its declared type and the decoded integer,
 and that integer is outside the declared set -/
